@@ -116,13 +116,15 @@ func DigestPowershell(r io.Reader, style PsSigStyle, hash crypto.Hash) (*PsDiges
 		}
 		if line == first {
 			// remove EOL from previous line
+			eol := 2
 			if isUtf16 {
-				saved = saved[:len(saved)-4]
-				sigSize = 4
-			} else {
-				saved = saved[:len(saved)-2]
-				sigSize = 2
+				eol = 4
 			}
+			if len(saved) < eol {
+				return nil, errors.New("signature block is not preceded by a line of text")
+			}
+			saved = saved[:len(saved)-eol]
+			sigSize = int64(eol)
 			// count the size of the signature
 			sigSize += int64(len(line))
 			n, err := io.Copy(io.Discard, br)
